@@ -455,3 +455,41 @@ def check_indent(chk, ix):
                   "indent(%r, %r) gives %r, expected %r: a line end is lost, so the next step is printed on the same line as the doc-string's "
                   "closing quotes / the table's last row" % (text, prefix, outs[0][2], want))
     chk.absorb(it)
+
+
+
+WHAT["F12"] = "an output stream opener closes and forgets only a stream it opened itself; a pre-opened stream (stdout shared by several formatters) stays open and stays known"
+
+
+def check_stream_opener_close(chk, ix):
+    """F12: StreamOpener.close evaluated for a pre-opened stream and for a stream the opener opened."""
+    chk.rule("F12", WHAT["F12"])
+    oc = ix.cls("behave.formatter.base:StreamOpener")
+    f = oc.lookup("close")
+    if f is None:
+        raise AnalysisError("anchor missing: StreamOpener.close")
+    for owned in (False, True):
+        closed_calls = []
+        it = Interp(ix, stubs={"StreamTok.close": lambda i, s_, a, k, n: (closed_calls.append(1), [(s_, "val", None)])[1]}, name="StreamOpener.close")
+        it.int_sat = 100
+        st = State()
+        st.frames = []
+        stream = st.alloc(HObj("StreamTok", {"closed": False}, label="stream"))
+        me = st.alloc(HObj(oc, {"name": None if not owned else "out.txt", "stream": stream, "encoding": "UTF-8", "should_close_stream": owned}, label="opener"))
+        outs = it.call_function(st, f, [], {}, None, self_val=me)
+        chk.absorb(it)
+        chk.instance("F12")
+        if len(outs) != 1 or outs[0][1] != "val":
+            raise AnalysisError("StreamOpener.close not evaluable: %r" % [(k, v) for _, k, v in outs][:3])
+        s1 = outs[0][0]
+        still = s1.obj(me).fields.get("stream")
+        kept = isinstance(still, Ref) and still.oid == stream.oid
+        ok_ = (bool(closed_calls) == owned) and (kept != owned) and (outs[0][2] is owned or outs[0][2] == owned)
+        if ok_:
+            chk.ok("F12", {"stream opened by the opener": owned, "closed": bool(closed_calls), "still known": kept, "returns": outs[0][2]}, nontrivial_key=owned)
+        else:
+            _fail(chk, "F12", f.fullname, f.file, f.lineno, "owned=%s closed=%s kept=%s returns=%r" % (owned, bool(closed_calls), kept, outs[0][2]),
+                  "StreamOpener.close() on a stream it %s: stream.close() %s, the opener %s the stream, returns %r; expected: %s. "
+                  "Several formatters writing to stdout share one opener: the second formatter's close() would find the stream gone" % (
+                      "opened itself" if owned else "did not open (pre-opened, e.g. stdout)", "called" if closed_calls else "not called",
+                      "still knows" if kept else "forgets", outs[0][2], "closed, forgotten, True" if owned else "left open, still known, False"))
